@@ -203,7 +203,7 @@ class Gen:
             yield "c.new n=%d r=%d w=1 rq=1 rr=0 parts=%d tsize=4096 lru=1 maxkeys=%d maxinuse=%d lrusamples=%d" % (n, R, parts, K, B, S)
         elif where == "custom":
             # the limits belong to the DMap `dm` alone (config.DMaps.Custom); `free` has none
-            yield "c.new n=%d r=%d w=1 rq=1 rr=0 parts=%d tsize=4096 cdm=dm clru=1 cmaxkeys=%d cmaxinuse=%d clrusamples=%d" % (n, R, parts, K, B, S)
+            yield "c.new n=%d r=%d w=1 rq=1 rr=0 parts=%d tsize=4096 cdm=dm clru=1 cmaxkeys=%d cmaxinuse=%d clrusamples=%d%s" % (n, R, parts, K, B, S, r.choice(["", " cnoeng=1"]))
         else:
             # every DMap has the limits except `free`, whose own settings say: no policy
             yield "c.new n=%d r=%d w=1 rq=1 rr=0 parts=%d tsize=4096 lru=1 maxkeys=%d maxinuse=%d lrusamples=%d cdm=free clru=0 cmaxkeys=0 cmaxinuse=0" % (n, R, parts, K, B, S)
